@@ -1675,7 +1675,11 @@ class HasTraits(CHasTraits, metaclass=MetaHasTraits):
         memo[id(self)] = new
         new._init_trait_listeners()
         new._init_trait_observers()
-        new.copy_traits(self, traits, memo, copy, **metadata)
+        # An empty list here can only mean "no trait of this object is
+        # copyable" (an explicitly passed empty list has been turned into
+        # all_trait_names() above); copy_traits would read it as "all".
+        if len(traits) > 0:
+            new.copy_traits(self, traits, memo, copy, **metadata)
         new._post_init_trait_listeners()
         new._post_init_trait_observers()
         new.traits_init()
